@@ -1749,6 +1749,36 @@ impl JsObject {
         None
     }
 
+    /// Arrays store their elements densely, so an assignment to an index or to
+    /// `length` can be an allocation: validate the new length (ArraySetLength) and
+    /// reserve the storage, so that an impossible size is an error the script can
+    /// catch rather than an abort inside `set_property`
+    pub fn reserve_array_growth(
+        &mut self,
+        key: &PropertyKey,
+        value: &JsValue,
+    ) -> Result<(), JsError> {
+        if let ExoticObject::Array { ref mut elements } = self.exotic {
+            let new_len = match (key, value) {
+                (PropertyKey::Index(idx), _) => Some(*idx as usize + 1),
+                (PropertyKey::String(s), JsValue::Number(n)) if s.as_str() == "length" => {
+                    if !(*n >= 0.0 && *n <= u32::MAX as f64 && math::fract(*n) == 0.0) {
+                        return Err(JsError::range_error("Invalid array length"));
+                    }
+                    Some(*n as usize)
+                }
+                _ => None,
+            };
+            if let Some(new_len) = new_len
+                && new_len > elements.len()
+                && elements.try_reserve(new_len - elements.len()).is_err()
+            {
+                return Err(JsError::range_error("Invalid array length"));
+            }
+        }
+        Ok(())
+    }
+
     /// Set a property
     pub fn set_property(&mut self, key: PropertyKey, value: JsValue) {
         // Frozen objects cannot be modified at all
